@@ -1,5 +1,6 @@
 //! vf-index: checks of the index crates (C10 B-tree, C11 BM25, C12 HNSW).
 mod c10;
+mod c11;
 
 use vf_core::Runner;
 
@@ -9,6 +10,11 @@ fn main() {
         "C10" => {
             let mut r = Runner::from_env("C10", "exploration");
             c10::run(&mut r);
+            r.finish();
+        }
+        "C11" => {
+            let mut r = Runner::from_env("C11", "exploration");
+            c11::run(&mut r);
             r.finish();
         }
         other => {
